@@ -5,8 +5,8 @@ package main
 
 import (
 	"fmt"
-	"os"
 	"go/types"
+	"os"
 	"sort"
 	"strconv"
 	"strings"
@@ -162,7 +162,55 @@ func (vc *VC) sortSlice(fr *frame, cc *ssa.CallCommon, args []Val, st *state) Va
 		vc.errorf("%s: sort.Slice on non-literal interface", fr.fn.Name())
 		return Val{}
 	}
-	return vc.sortSliceOf(fr, mi.X, st, false)
+	r := vc.sortSliceOf(fr, mi.X, st, false)
+	vc.sortedByLess(fr, cc.Args[1], st)
+	return r
+}
+
+// sortedByLess: after sort.Slice(s, less) no later element is less than an earlier one. The
+// comparator is executed symbolically (inlined) in the state after the sort for every ordered pair
+// (a, b) of integer ghosts with 0 <= a < b < len(s): less(b, a) is false. The safety obligations
+// of the comparator's body are generated under the same condition (sort.Slice may call less on any
+// pair of valid indices).
+func (vc *VC) sortedByLess(fr *frame, lessV ssa.Value, st *state) {
+	var fn *ssa.Function
+	var bindings []ssa.Value
+	switch x := lessV.(type) {
+	case *ssa.MakeClosure:
+		fn, _ = x.Fn.(*ssa.Function)
+		bindings = x.Bindings
+	case *ssa.Function:
+		fn = x
+	}
+	if fn == nil || fn.Blocks == nil || len(fn.Params) != 2 {
+		vc.assumed["sort.Slice: order by the comparator not derived (comparator is not a function literal)"] = true
+		return
+	}
+	si := vc.eng.lastSort[vc]
+	gs := vc.ghostByKey["Int"]
+	intT := fn.Params[0].Type()
+	for _, a := range gs {
+		for _, b := range gs {
+			if a == b {
+				continue
+			}
+			cond := fmt.Sprintf("(and (<= 0 %s) (< %s %s) (< %s %s))", a, a, b, b, si.n)
+			vc.nfresh++
+			nf := vc.newFrame(fn, fmt.Sprintf("%sless$%d.", fr.prefix, vc.nfresh), fr.depth+1, append(append([]string{}, fr.stack...), funcKey(fn)))
+			nf.vals[fn.Params[0]] = Val{T: b, Typ: intT}
+			nf.vals[fn.Params[1]] = Val{T: a, Typ: intT}
+			for i, fv := range fn.FreeVars {
+				nf.vals[fv] = vc.get(fr, bindings[i])
+			}
+			sub := state{reach: vc.define("reach", "Bool", and(st.reach, cond)), heap: st.heap.clone()}
+			rets := vc.run(nf, sub)
+			for _, r := range rets {
+				if len(r.vals) == 1 {
+					vc.assume(r.reach, "(not "+r.vals[0].T+")")
+				}
+			}
+		}
+	}
 }
 
 func (vc *VC) sortSliceOf(fr *frame, sv ssa.Value, st *state, increasing bool) Val {
